@@ -193,7 +193,7 @@ class EValue(PyEcoreValue):
             opposite.append(owner, update_opposite=False)
         else:
             # the new partner is taken away from its previous partner
-            if opposite is not None and opposite is not owner:
+            if opposite is not None and not _stands_for(opposite, owner):
                 opposite.__getattribute__(efeature._name)  # Force load
                 opposite.__dict__[efeature._name] \
                         .remove_or_unset(value, update_opposite=False)
